@@ -31,7 +31,7 @@ CHECKS = {
             "Round closing rule (not early / not late / one left / no betting when all-in / full board) with history variables "
             "maintained by the trace specification; all interleavings in the model-checking scope, real traces validated."),
     "C06": ("spec/HoldemProps.tla C06_* + liveness Terminates under WF in MCHoldem",
-            "Single wait point and a single indication (no seat is offered an action while a table operation is awaited), expected step succeeds, street order, result iff closed, closed is final; termination as liveness on the "
+            "Single wait point and a single indication (no seat is offered an action while a table operation is awaited; during a betting round the player to act is offered something), expected step succeeds, street order, result iff closed, closed is final; termination as liveness on the "
             "model and as bounded non-progress on every real trace; Start defects singly and in pairs."),
     "C15": ("spec/ViewProps.tla FailedView on every recorded state x every seat + observer, with a generic card-symbol leak scan",
             "Deck and burned cards never in a view; other players' hole cards and evaluations hidden before the close, folded ones after it; the "
@@ -57,7 +57,8 @@ CHECKS = {
     "C09": ("spec/RegProps.tla C09_* on every call of real tournaments (queue read through the verif snapshot hook)",
             "Every live player in exactly one place (queue or one table), no duplicates, the regulator's totals equal the real numbers wherever "
             "the instruction has been carried out, refusals leave everything unchanged; MCReg checks the precise model + obedient tables for all "
-            "histories of small tournaments; real regulator driven by random tournaments, a settings sweep and TLC-generated scripts."),
+            "histories of small tournaments; the real regulator's own reachable graph is enumerated in the same small scopes (states rebuilt by replay) and every transition validated; "
+            "plus random tournaments, a settings sweep and TLC-generated scripts; unknown-table calls name fresh ids and tables that were told to break."),
     "C10": ("spec/HoldemProps.tla C10_* with HandRank.Admissible/RefKey on every street of real hands (constructed and random decks)",
             "Each published hand is five own cards, admissible (exactly the required hole cards), unbeaten by any admissible selection under "
             "RefKey, with category/strength equal to the evaluator re-run on those cards, stable between streets, and the showdown pays by the "
@@ -76,7 +77,7 @@ CHECKS = {
             "is a permutation; real shuffles and forced decks, both decks, 2 and 4 hole cards."),
     "C17": ("spec/SeatProps.tla C17_button/C17_insufficient on every Next of the real SeatManager's state graph and histories",
             "Button moves to the first playable seat clockwise from the dealer the last move left behind (a history variable: seat operations other than Next do not move the button), never stalls or skips; fewer than two able to play => the insufficient-players "
-            "error, never a panic; same exploration as C08; SeatNextProof proves the button rule on the model of nextDealer with TLAPS for any number of seats."),
+            "error, never a panic; same exploration as C08 (Reset() is part of the alphabet); SeatNextProof proves the button rule on the model of nextDealer with TLAPS for any number of seats."),
     "C18": ("spec/SeatProps.tla C18_* incl. concurrent Join episodes under a decided schedule (gate hook) + SeatJoinConc.tla",
             "Join/Leave/any-seat semantics, seated = joins - leaves, no panic on any call incl. out-of-range seats; concurrent joins: one "
             "goroutine is held between check and commit by the verif gate hook while the others must block on the mutex; the episode "
@@ -85,10 +86,10 @@ CHECKS = {
             "is driven as a client of the seat manager (Join, ApplySeatChanges with callbacks)."),
     "C19": ("spec/RegProps.tla C19_* over a sweep of all settings 2<=min<=max<=6 (10 thorough) x registrant counts x batch modes",
             "No request/assign/sync hand-out ever makes a table exceed the maximum, no table before the start or before min registrants, "
-            "initial tables get at least min; MCReg for small settings, sweep + random tournaments on the real regulator."),
+            "initial tables get at least min; MCReg for small settings, the real regulator's reachable graph in the same scopes, sweep + random tournaments on the real regulator."),
     "C20": ("spec/RegProps.tla C20_* settle episodes (sweeps of out=0 syncs) + liveness Settles in MCReg",
             "From reachable states, sweeping all tables with no eliminations reaches a full quiet sweep within 8 sweeps (model needs 2, real 3); "
-            "a broken table releases all members and each is re-queued or re-seated elsewhere; liveness `settle ~> done` under weak fairness on the model."),
+            "a broken table releases all members and each is re-queued or re-seated elsewhere; liveness `settle ~> done` under weak fairness on the model; settle episodes start from every state of the real regulator's small-scope graph and at random points of random tournaments."),
 }
 
 
